@@ -828,6 +828,41 @@ func Run(r *fw.Run) {
 	// (b2) key strings: the key hash binds name and key; altered key strings are refused
 	keyBinding(r)
 	overlapPart(r, nil)
+	// dense length sweep: a text line, a signature payload and a key name of every length 0..enum.DenseMax
+	{
+		var mu sync.Mutex
+		r.Bounds["dense_length_sweep"] = fmt.Sprintf("text line, signature payload and key name of every length 0..%d", enum.DenseMax)
+		fw.Parallel(16, func(sh int) {
+			l := fw.NewLocal()
+			defer r.Merge(l)
+			enum.EachLength('t', enum.DenseMax, func(f string) {
+				n := len(f)
+				if n%16 != sh {
+					return
+				}
+				l.States++
+				report := func(kind, text string, sg, vs []string, msg string) {
+					mu.Lock()
+					r.Violation(fmt.Sprintf("dense:%s:%d", kind, n), msg, caseT{Kind: kind, Text: strconv.QuoteToASCII(text), Signers: sg, Verifiers: vs})
+					mu.Unlock()
+				}
+				l.Execs += 3
+				l.Transitions += 3
+				if msg, class := signOpen(f+"\n", []string{"k1"}, []string{"k1"}); msg != "" {
+					report("sign-open", f+"\n", []string{"k1"}, []string{"k1"}, msg)
+				} else if class != "" {
+					l.Nontrivial++
+				}
+				longSig := "— x " + base64.StdEncoding.EncodeToString(append([]byte{0, 0, 0, 9}, make([]byte, n)...))
+				longName := "— " + strings.Repeat("n", n) + " AAAAAAA="
+				for _, m := range []string{"a\n\n" + longSig + "\n" + good1 + "\n", "a\n\n" + longName + "\n" + good1 + "\n"} {
+					if msg, _ := openCase(m, []string{"k1"}); msg != "" {
+						report("message", m, nil, []string{"k1"}, msg)
+					}
+				}
+			})
+		})
+	}
 
 	// (c) mutations of signed messages
 	type signed struct {
